@@ -60,7 +60,7 @@ func (r *Run) newChan(n int, elem types.Type) *Chan {
 	return &Chan{id: r.chanCount, cap: n, zero: z}
 }
 
-func (r *Run) deterministic() bool { return r.W.Lim.Preemptions < 0 }
+func (r *Run) deterministic() bool { return r.W.Lim.Preemptions < 0 || r.schedOff }
 
 // spawn starts a new target goroutine; it becomes runnable but does not run
 // until scheduled.
@@ -205,7 +205,7 @@ func (r *Run) yield(g *Goroutine, what string) {
 		return
 	}
 	lim := r.W.Lim.Preemptions
-	if lim < 0 || r.preempt >= lim {
+	if lim < 0 || r.preempt >= lim || r.schedOff {
 		return
 	}
 	others := r.otherRunnable(g)
@@ -262,7 +262,7 @@ func (r *Run) exitGoroutine(g *Goroutine) {
 // it costs one unit of the delay/preemption budget (delay-bounded scheduling).
 func (r *Run) pickNext(others []*Goroutine, what string) *Goroutine {
 	lim := r.W.Lim.Preemptions
-	if lim < 0 || len(others) == 1 || r.preempt >= lim {
+	if lim < 0 || len(others) == 1 || r.preempt >= lim || r.schedOff {
 		return others[0]
 	}
 	c := r.Choose(len(others), "sched", what)
